@@ -4,6 +4,7 @@ package c09
 
 import (
 	"bytes"
+	"encoding/binary"
 	"encoding/json"
 	"fmt"
 	"io"
@@ -27,6 +28,8 @@ import (
 
 // Program is a concurrent test program: one op list per goroutine.
 type Program struct {
+	// Gated: instead of the op lists, run the gated pairs (see gated)
+	Gated      bool       `json:"gated_pairs,omitempty"`
 	PoolSeed   uint64     `json:"pool_seed"`
 	Campaign   string     `json:"campaign"` // A: inputs without accumulating sources, B: with
 	GoMaxProcs int        `json:"gomaxprocs"`
@@ -170,6 +173,109 @@ func execute(pool *ops.Pool, p *Program) (hashes [][]string, overlapped bool) {
 	return
 }
 
+// gateReader delivers the first half of data, signals started, and delivers
+// the rest only after gate is closed: a reader whose input arrives when
+// something else in the program has happened.
+type gateReader struct {
+	data    []byte
+	pos     int
+	half    int
+	started chan struct{}
+	gate    chan struct{}
+	once    sync.Once
+}
+
+func (g *gateReader) Read(p []byte) (int, error) {
+	if g.pos >= len(g.data) {
+		return 0, io.EOF
+	}
+	if g.pos >= g.half {
+		g.once.Do(func() { close(g.started) })
+		<-g.gate
+	}
+	n := len(p)
+	if g.pos < g.half && n > g.half-g.pos {
+		n = g.half - g.pos
+	}
+	n = copy(p[:n], g.data[g.pos:])
+	g.pos += n
+	return n, nil
+}
+
+// gated runs pairs of calls in which call A reads from a reader that pauses in
+// the middle of the data until call B - on its own, independent input - has
+// returned. Independent calls do not wait for each other: B returns while A
+// is paused. It returns descriptions of pairs where B did not.
+func gated(pool *ops.Pool) []string {
+	var data []byte
+	for i, n := range pool.Names {
+		if n == "generated stream" && len(pool.Bytes[i]) >= 60 && !accumulating(pool.Bytes[i]) {
+			if _, err := fit.Decode(bytes.NewReader(pool.Bytes[i])); err == nil {
+				data = pool.Bytes[i]
+				break
+			}
+		}
+	}
+	if data == nil {
+		return nil
+	}
+	spec := pool.Specs[0]
+	as := []struct {
+		name string
+		run  func(r io.Reader)
+	}{
+		{"Decode", func(r io.Reader) { fit.Decode(r) }},
+		{"Decode with options", func(r io.Reader) { fit.Decode(r, fit.WithUnknownFields(), fit.WithUnknownMessages()) }},
+		{"DecodeChained", func(r io.Reader) { fit.DecodeChained(r) }},
+		{"CheckIntegrity", func(r io.Reader) { fit.CheckIntegrity(r, false) }},
+	}
+	bs := []struct {
+		name string
+		run  func()
+	}{
+		{"Decode", func() { fit.Decode(bytes.NewReader(data)) }},
+		{"DecodeChained", func() { fit.DecodeChained(bytes.NewReader(data)) }},
+		{"CheckIntegrity", func() { fit.CheckIntegrity(bytes.NewReader(data), false) }},
+		{"DecodeHeaderAndFileID", func() { fit.DecodeHeaderAndFileID(bytes.NewReader(data)) }},
+		{"Encode", func() {
+			if f, err := gen.BuildFile(spec); err == nil {
+				var buf bytes.Buffer
+				fit.Encode(&buf, f, binary.LittleEndian)
+			}
+		}},
+	}
+	var out []string
+	for _, a := range as {
+		for _, b := range bs {
+			g := &gateReader{data: data, half: len(data) / 2, started: make(chan struct{}), gate: make(chan struct{})}
+			doneA, doneB := make(chan struct{}), make(chan struct{})
+			go func() { defer close(doneA); a.run(g) }()
+			select {
+			case <-g.started:
+			case <-doneA:
+				continue // A never got to the middle of its input
+			case <-time.After(10 * time.Second):
+				out = append(out, fmt.Sprintf("%s did not reach the middle of its input within 10 s", a.name))
+				close(g.gate)
+				continue
+			}
+			go func() { defer close(doneB); b.run() }()
+			select {
+			case <-doneB:
+			case <-time.After(10 * time.Second):
+				out = append(out, fmt.Sprintf("%s on an input of its own did not return within 10 s while a %s call was waiting for its reader (calls on independent inputs block each other)", b.name, a.name))
+			}
+			close(g.gate)
+			select {
+			case <-doneA:
+			case <-time.After(10 * time.Second):
+				out = append(out, fmt.Sprintf("%s did not return within 10 s after its reader delivered the rest", a.name))
+			}
+		}
+	}
+	return out
+}
+
 type workerReply struct {
 	Mismatch   []string `json:"mismatch"`
 	Overlapped bool     `json:"overlapped"`
@@ -209,6 +315,16 @@ func TestMain(m *testing.M) {
 		os.Exit(0)
 	}
 	var r workerReply
+	if p.Gated {
+		r.Mismatch = gated(pool)
+		r.Overlapped = true
+		r.Log, logPos = readLog(logPos)
+		enc.Encode(&r)
+		if lp := raceLogFile(); lp != "" {
+			os.Remove(lp)
+		}
+		os.Exit(0)
+	}
 	// concurrent run first, sequential baseline afterwards
 	hashes, overlapped := execute(pool, &p)
 	r.Overlapped = overlapped
@@ -460,6 +576,17 @@ func TestC09(t *testing.T) {
 			if sig, msg, ok := runProgram(p, "focused"); !ok {
 				rec.Fail("focused-"+p.Campaign, sig, "all goroutines on the input family '"+famOrder[i][:len(famOrder[i])-2]+"': "+msg, p)
 				break
+			}
+		}
+
+		// gated pairs: a call paused in the middle of its input must not keep
+		// a call on another input from returning
+		{
+			gp := &Program{Gated: true, PoolSeed: seed, Campaign: "A", GoMaxProcs: 4}
+			rec.Eval("gated", 20)
+			rec.NonTrivial(hx.FP("gated"))
+			if sig, msg, ok := runProgram(gp, "gated"); !ok {
+				rec.Fail("gated", sig, msg, gp)
 			}
 		}
 
